@@ -103,7 +103,18 @@ def cplx(rng):
 def rand_optfile(rng, with_pars=True, fcs=None, extra_families=False):
     lines = [["event", ["D0"] + FINAL]]
     tops = [top_line(rng) for _ in range(rng.randint(1, 6))]
-    body = [["cplx", t, cplx(rng), cplx(rng)] for t in tops]
+    if rng.random() < 0.3:
+        # the same resonance written bare twice in one line of the mother (each occurrence is replaced by every separate line for it)
+        n = rng.choice(V_PIPI + S_PIPI + V_KPI)
+        tops.insert(rng.randint(0, len(tops)), ["D0", None, None, [leaf(n), leaf(n)]])
+    if rng.random() < 0.3:
+        # a cascade resonance written bare whose separate lines all leave the same inner resonance bare
+        n, inner = rng.choice(A_K + P_K), rng.choice(V_PIPI)
+        tops.append(["D0", None, None, [leaf(n), leaf("pi+")]])
+        forced = [[n, rng.choice([None, "D"]), None, [leaf(inner), leaf("K-")]] for _ in range(rng.randint(2, 3))]
+    else:
+        forced = []
+    body = [["cplx", t, cplx(rng), cplx(rng)] for t in tops] + [["cplx", t, cplx(rng), cplx(rng)] for t in forced]
     # separate lines for bare resonances, to depth 3
     todo = []
     for t in tops:
